@@ -225,6 +225,17 @@ example : (⟨0, 1, 2, 3⟩ : Slice).off + (⟨0, 1, 2, 3⟩ : Slice).len ≤ ((
 example : StrictWeak (fun a b : Nat => decide (a % 2 < b % 2)) :=
   ⟨fun a => by simp, fun a b c => by simp; omega, fun a b c => by simp; omega⟩
 
+/-- the theorems with a `StrictWeak` hypothesis apply to that comparator, to Go's `<` on ints and
+    strings, and to every descriptor comparator -/
+example (l : List Nat) := C19_sort_stable (less := fun a b : Nat => decide (a % 2 < b % 2))
+  ⟨fun a => by simp, fun a b c => by simp; omega, fun a b c => by simp; omega⟩ l
+example (l : List Int) := C19_sortOrdered_desc C19_natural_orders_strictWeak.1 l
+example (l : List (List Nat)) := C19_sortOrdered_desc C19_natural_orders_strictWeak.2.1 l
+example (ds : List (Desc Rec)) (l : List Rec) := C19_sort_unique (C19_desc_strictWeak ds) l
+example (recs : List Rec) (ids : List Nat) :=
+  C19_oracle_accepts_exactly_model (less := fun x y : Rec => decide (getA x % 2 < getA y % 2))
+    ⟨fun a => by simp, fun a b c => by simp; omega, fun a b c => by simp; omega⟩ recs ids
+
 /-- ties are really kept in input order, non-ties really move -/
 example : sortBy (fun a b : Nat => decide (a % 2 < b % 2)) [3, 2, 1, 4, 5] = [2, 4, 3, 1, 5] := by
   simp [sortBy, List.mergeSort, List.MergeSort.Internal.splitInTwo]
